@@ -159,7 +159,7 @@ def preprocess(fname, macros=False):
 
 def main():
     cpp = preprocess('NMEA2000.cpp')
-    out = ['(* GENERATED by tools/gen_tables.py from %s/src/NMEA2000.cpp - do not edit *)' % REPO,
+    out = ['(* GENERATED by tools/gen_tables.py from <repo>/src/NMEA2000.cpp - do not edit *)',
            'From Coq Require Import ZArith List Bool.', 'Import ListNotations.', 'Local Open Scope Z_scope.', '']
     problems = []
     tables = [('IsSingleFrameSystemMessage', 'single_frame_system'), ('IsFastPacketSystemMessage', 'fast_packet_system'),
@@ -207,7 +207,7 @@ def main():
               ('Max_N2kModelSerialCode_len', 'NMEA2000.h'), ('Max_N2kConfigurationInfoField_len', 'NMEA2000.h'), ('N2kPGNIsoAddressClaim', 'NMEA2000.h'),
               ('N2kPGNProductInformation', 'NMEA2000.h'), ('N2kPGNConfigurationInformation', 'NMEA2000.h'), ('MAX_STREAM_MSG_BUF_LEN', 'ActisenseReader.h'),
               ('N2kMaxBusDevices', 'N2kDeviceList.h')]
-    cout = ['(* GENERATED by tools/gen_tables.py from %s/src - do not edit *)' % REPO, 'From Coq Require Import ZArith.', 'Local Open Scope Z_scope.', '']
+    cout = ['(* GENERATED by tools/gen_tables.py from <repo>/src - do not edit *)', 'From Coq Require Import ZArith.', 'Local Open Scope Z_scope.', '']
     cprob = []
     cache = {}
     for name, f in consts:
